@@ -35,7 +35,7 @@ ASSUMPTIONS = [
 PROBES = ["ran_to_completion", "forced_cleanup_deleted_preexisting", "refused_without_force", "workspace_inside_input", "input_inside_workspace",
           "identical_paths", "via_symlink", "default_name_coincidence", "symlink_in_input", "file_input", "multi_input",
           "fault_crash", "fault_eio_copy", "fault_enospc_write", "fault_eacces_mkdir", "second_run_on_residue", "copied_files",
-          "relative_workspace", "default_workspace"]
+          "relative_workspace", "default_workspace", "input_via_symlinked_ancestor", "cwd_contains_default_name"]
 TIERS = {
     "quick": {"runs": 2400, "budget_s": 300, "chunk": 25, "selftest": 50, "per_run_timeout": 300},
     "thorough": {"runs": 0, "budget_s": 1500, "chunk": 50, "selftest": 100, "per_run_timeout": 300},
@@ -81,6 +81,8 @@ def gen_knobs(rng, tier):
         "coincidence": rng.random() < 0.25,
         "nomock": rng.random() < 0.5,
         "cwd_in_input": rng.random() < 0.3,
+        "symlinked_ancestor": rng.random() < 0.25,
+        "cwd_named_like_default": rng.random() < 0.2,
     }
 
 
@@ -190,6 +192,21 @@ def generate(rng, k):
     else:
         run["w"] = {"form": "abs", "path": ws_opt}
     run["inputs"] = [{"form": rng.choice(["abs", "rel", "rel"]), "path": p} for p in inputs]
+    if k.get("symlinked_ancestor"):
+        # the same inputs, named through a symlink to the world root (/x/link/proj with link -> real)
+        ops.insert(len(ops), {"op": "symlink", "path": "lnkroot", "target_abs": "."})
+        for i_ in run["inputs"]:
+            i_["path"] = "lnkroot/" + i_["path"]
+        if run.get("w") and rng.random() < 0.5:
+            run["w"] = dict(run["w"], path="lnkroot/" + run["w"]["path"])
+    if k.get("cwd_named_like_default") and run["cwd"] == "cw":
+        ops.insert(len(ops), {"op": "mkdir", "path": f"{DEFAULT_WS}_runs"})
+        ops.insert(len(ops), {"op": "mkfile", "path": f"{DEFAULT_WS}_runs/my_notes.txt", "content": "user file in the start directory\n"})
+        run["cwd"] = f"{DEFAULT_WS}_runs"
+        if run.get("w") and rng.random() < 0.7:
+            # a relative -w value that does not itself contain the default name
+            run["w"] = {"form": "rel", "path": f"{DEFAULT_WS}_runs/outdir"}
+            ops.insert(len(ops), {"op": "mkfile", "path": f"{DEFAULT_WS}_runs/outdir/users_other_file.txt", "content": "must survive\n"})
     if rng.random() < 0.15 and run["inputs"]:
         run["inputs"][0]["trailing_slash"] = True
     if k["population"] == "faulted":
@@ -303,6 +320,10 @@ def execute(trace):
                     hit("default_name_coincidence")
             if len(in_args) > 1:
                 hit("multi_input")
+            if any(os.path.realpath(os.path.join(cwd_abs, a)) != os.path.abspath(os.path.join(cwd_abs, a)) for a in in_args):
+                hit("input_via_symlinked_ancestor")
+            if DEFAULT_WS in cwd_abs[len(R):]:
+                hit("cwd_contains_default_name")
             if w_value is None:
                 hit("default_workspace")
             elif not os.path.isabs(w_value):
